@@ -645,7 +645,8 @@ func (sp *subProcess) Type() ActivityType {
 }
 
 func (sp *subProcess) Cancel() <-chan bool {
-	response := make(chan bool)
+	// buffered: the caller stops waiting for the answer when the context is done
+	response := make(chan bool, 1)
 	sp.mch <- cancelMessage{response: response}
 	return response
 }
